@@ -30,7 +30,11 @@ def replaceMatch(match: Match, replacement: str, expand: Optional[Expand] = None
             return ''
         result = match[i] or ''  # A group that did not participate in the match is blank.
         # match group text.
-        return replaceInline(result, expand)
+        text = replaceInline(result, expand)
+        if m[1] == '$' and not expand.spans:
+            # $n groups land in attribute values: a double quote must not end the attribute.
+            text = text.replace('"', '&quot;')
+        return text
     return re.sub(r'(\${1,2})(\d)', repl, replacement)
 
 
